@@ -507,6 +507,9 @@ def _solve_one(ob, timeout_ms, use_cvc5=True, ex=None):
         s.add(ax)
     for t in terms:
         s.add(t)
+    if os.environ.get("PYVC_DUMP") and os.environ["PYVC_DUMP"] in ob.name:
+        with open("/tmp/w/dump_%s.smt2" % ob.name.replace("/", "_").replace(":", "_")[-80:], "w") as f_:
+            f_.write(s.to_smt2())
 
     def fn():
         first = min(timeout_ms, 8000)
